@@ -83,6 +83,19 @@ class Codec:
         Raises:
             EncodingError: when failed MsgSeqNum conditions for some types of messages
         """
+        # Render the message fields first: a message that cannot be encoded must not
+        #   consume a MsgSeqNum
+        fields = []
+        for t in msg.tags:
+            if t in {
+                FTag.MsgSeqNum,
+                FTag.SendingTime,
+                FTag.SenderCompID,
+                FTag.TargetCompID,
+            }:
+                continue
+            self._addTag(fields, t, msg)
+
         # Create body
         body = []
 
@@ -116,16 +129,7 @@ class Codec:
 
         body.append("%s=%s" % (FTag.MsgSeqNum, seq_no))
         body.append("%s=%s" % (FTag.SendingTime, self.current_datetime()))
-
-        for t in msg.tags:
-            if t in {
-                FTag.MsgSeqNum,
-                FTag.SendingTime,
-                FTag.SenderCompID,
-                FTag.TargetCompID,
-            }:
-                continue
-            self._addTag(body, t, msg)
+        body.extend(fields)
 
         # Enable easy change when debugging
         SEP = self.SOH
